@@ -402,6 +402,17 @@ impl UcdLineParser<ucd_parsers::UnicodeData> for UnassignedTableGen {
 
 impl CodeGen for UnassignedTableGen {
     fn generate_code(&mut self, file: &mut File) -> Result<(), Error> {
-        file_writer::generate_code_from_vec(file, &self.name, &self.vec)
+        // Code points that follow the last entry of `UnicodeData.txt`
+        // are unassigned too
+        let mut vec = self.vec.clone();
+        let last = ucd_parse::Codepoint::from_u32(0x10FFFF)?;
+        if self.range.start.value() <= last.value() {
+            let range = ucd_parse::CodepointRange {
+                start: self.range.start,
+                end: last,
+            };
+            common::add_codepoints(&range, &mut vec);
+        }
+        file_writer::generate_code_from_vec(file, &self.name, &vec)
     }
 }
